@@ -67,6 +67,14 @@ def check(ctx, locked=True):
     ok, out, dt = infra.lake_build([REFINE_MODULE], locked=locked)
     res = {"status": "ok" if ok else "broken", "broken": [], "build_s": round(dt, 1)}
     if ok:
+        # axiom audit of the refinement theorems (same rule as for the property theorems)
+        thms = [m.group(1) for m in re.finditer(r"^-- THEOREM: (\S+)", open(os.path.join(LEAN, "RdsProps", "Refinement.lean")).read(), re.M)]
+        axs, raw, rc = infra.print_axioms(REFINE_MODULE, thms)
+        bad = [t for t in thms if t not in axs or any(a not in infra.ALLOWED_AXIOMS for a in axs[t])]
+        res["theorems"] = len(thms)
+        if bad:
+            res["status"] = "broken"
+            res["broken"].append({"file": "RdsProps/Refinement.lean", "line": 0, "decl": ", ".join(bad)[:200], "msg": "axiom audit failed", "owners": ALL})
         return res
     seen = set()
     for m in re.finditer(r"error: (\S+?\.lean):(\d+):\d+: (.*)", out):
@@ -78,8 +86,12 @@ def check(ctx, locked=True):
             continue
         seen.add(key)
         generated = rel.endswith("Translated.lean")
+        # owners are read off the STATEMENT of the broken declaration (the C functions it is about), not its proof
+        stmt = re.split(r":=\s*(?:by\b|$)", text, maxsplit=1, flags=re.M)[0]
+        if not re.search(r"c_rdsparser_\w+|cSetField|cRegister|cstep|crun", stmt):
+            stmt = text
         res["broken"].append({"file": rel, "line": line, "decl": name, "msg": msg[:200],
-                              "owners": sorted(ALL if generated or name is None else owners_of(text))})
+                              "owners": sorted(ALL if generated or name is None else owners_of(stmt))})
     if not res["broken"]:
         res["broken"].append({"file": "?", "line": 0, "decl": None, "msg": out[-400:], "owners": ALL})
     res["log"] = out[-3000:]
